@@ -145,6 +145,8 @@ def units(tier):
                 continue
             if tier == "quick" and name.startswith("s1") and knob in ("pad2", "rotate-order"):
                 continue
+            if knob == "duplicate" and not [f for f in catalogue.get(c).shapes["M"].fields if f.label in ("singular", "optional") and f.kind != "message" and not f.wraps]:
+                continue
             u.append(("decode[%s | %s]" % (name, knob), h_decode, {"cat": c, "knob": knob}))
     u.append(("oneof-members-any-order", h_oneof_dup, {}))
     return u
